@@ -290,6 +290,71 @@ def run_running(case) -> dict:
     return {"problems": problems[:5], **info}
 
 
+def run_overlap(case) -> dict:
+    """extract_outermost(x) = extract(x).frames[0] also while ANOTHER thread is in the middle of an extraction with the opposite
+    options, the two overlapping non-LIFO (the other one starts after this one and ends after it): forced with events."""
+    import threading
+
+    import stackscope
+
+    wc = case["with_contexts"]
+
+    class M:
+        def __enter__(self):
+            return self
+
+        def __exit__(self, *a):
+            return False
+
+    def gen():
+        with M():
+            yield
+
+    g = gen()
+    next(g)
+    started: List[Any] = []
+    inside, go_on = threading.Event(), threading.Event()
+
+    class Blocker:
+        pass
+
+    class Item:
+        pass
+
+    @stackscope.unwrap_stackitem.register(Blocker)
+    def _ub(b):
+        inside.set()
+        go_on.wait(20)
+        return None
+
+    @stackscope.unwrap_stackitem.register(Item)
+    def _ui(i):
+        # this extraction is under way: now the other thread begins one of its own, with the opposite options
+        if not started:
+            t = threading.Thread(target=lambda: stackscope.extract(Blocker(), with_contexts=not wc, recurse_child_tasks=True), daemon=True)
+            started.append(t)
+            t.start()
+            inside.wait(10)
+        return g
+
+    problems = []
+    try:
+        if case["first"] == "outermost":
+            f = stackscope.extract_outermost(Item(), with_contexts=wc)
+        else:
+            st0 = stackscope.extract(Item(), with_contexts=wc)
+            f = st0.frames[0]
+    finally:
+        go_on.set()
+        for t in started:
+            t.join(10)
+    ref = stackscope.extract(Item(), with_contexts=wc).frames[0]
+    if (len(f.contexts), f.pyframe) != (len(ref.contexts), ref.pyframe) or len(f.contexts) != (1 if wc else 0):
+        problems.append(f"{case['first']}(x, with_contexts={wc}) overlapping with another thread's extraction (with_contexts={not wc}): the "
+                        f"frame has {len(f.contexts)} contexts; alone it has {len(ref.contexts)}")
+    return {"problems": problems, "with_origin": 1}
+
+
 class C16(PropCheck):
     pid = "C16"
     real_time_limit = 8.0
@@ -334,12 +399,17 @@ class C16(PropCheck):
         for nk in (1, 2, 4):
             for wrapped in (False, True):
                 out.append({"k": "taskset", "nkids": nk, "wrapped": wrapped})
+        for wc in (True, False):
+            for first in ("outermost", "extract"):
+                out.append({"k": "overlap", "with_contexts": wc, "first": first})
         try:
             from .. import chains
 
             m = 150 if tier == "quick" else 2500
             for _ in range(m):
-                out.append({"k": "chain", "links": chains.rand_links(rng, rng.randint(0, 6)), "end": rng.choice(chains.ENDS),
+                # (not through a weakref.proxy of a generator: the proxy cannot be weakly referenced itself and gives no access to
+                # its referent, so a frame reached through it has no origin -- noted in DESIGN.md, not in this space)
+                out.append({"k": "chain", "links": [l for l in chains.rand_links(rng, rng.randint(0, 6)) if l != "await_proxy_gen"], "end": rng.choice(chains.ENDS),
                             "root": rng.choice(chains.ROOTS)})
         except ImportError:
             pass
@@ -386,6 +456,8 @@ class C16(PropCheck):
             from .. import chains
 
             return chains.run_origin_case(case)
+        if case["k"] == "overlap":
+            return run_overlap(case)
         raise ValueError(case["k"])
 
     def canon(self, case, real):
